@@ -5,6 +5,7 @@ package main
 
 import (
 	"fmt"
+	"go/token"
 	"go/types"
 
 	"golang.org/x/tools/go/ssa"
@@ -24,7 +25,7 @@ type Cell struct {
 
 type epoch struct {
 	tid, clk int
-	pos      string
+	pos      token.Pos
 }
 
 // Struct and Array hold their elements in cells so that field/element addresses are stable.
